@@ -80,6 +80,22 @@ class World:
     def scale_fr(self, q, variant):
         return F(self.scale_exact(q, variant))
 
+    def si_prefix(self, q, variant):
+        """SIPrefix variant name the code reports for the unit, or None"""
+        ex = self.executor(T.TUf(self.backend))
+        st = State()
+        r = ex.temp_ref(st, self.unit(q, variant))
+        outs = ex.call(st, "<%s as Unit>::si_prefix" % self.qty[q], [r], {})
+        v = outs[0].value
+        return None if v.variant == "None" else v.payload[0].variant
+
+    def eligible(self, q):
+        """units _fit may choose from, by the documented rule, from code-reported prefixes"""
+        us = self.units(q)
+        if self.si_prefix(q, self.ref_unit(q)) is None:
+            return list(us)
+        return [u for u in us if self.si_prefix(q, u) is not None]
+
     def ref_unit(self, q):
         ex = self.executor(T.TUf(self.backend))
         st = State()
